@@ -233,6 +233,8 @@ static int c01_cmd (char *line)
       quiet = 1;
       fflush (stdout);
       freopen ("/dev/null", "w", stdout);
+      /* programs of earlier cases must not be loadable: a replay has to carry its own `prog` line */
+      system ("rm -rf c01/gen");
     }
   char *tok[16];
   char res[1024];
@@ -392,11 +394,12 @@ static int c01_cmd (char *line)
       vh_out ("fz %s %s %s", tok[1], tok[2], rc == 0 ? "ok" : rc == 1 ? "err" : "nofn");
       return 1;
     }
-  if (!strcmp (tok[0], "stackprog") && n == 3)
+  if (!strcmp (tok[0], "stackprog") && (n == 3 || n == 4))
     {
+      int nlocals = n == 4 ? atoi (tok[3]) : 0;
       /* rec(d, a1..aN) calls itself d times passing N arguments: unchecked argument pushes per level */
       int depth = atoi (tok[1]), nargs = atoi (tok[2]);
-      char *src = (char *) malloc (64 * (nargs + 4) + 512), *o = src;
+      char *src = (char *) malloc (64 * (nargs + 4) + 2048), *o = src;
       char path[128];
       error_context_t econ;
       object_t *volatile ob = 0;
@@ -405,7 +408,10 @@ static int c01_cmd (char *line)
       o += sprintf (o, "void create () { seteuid (getuid ()); }\nint rec (int d");
       for (int k = 0; k < nargs; k++)
         o += sprintf (o, ", int a%d", k);
-      o += sprintf (o, ") {\n  if (d <= 0) return 0;\n  return 1 + rec (d - 1");
+      o += sprintf (o, ") {\n");
+      for (int k = 0; k < nlocals && k < 64; k++)
+        o += sprintf (o, "  int l%d;\n", k);	/* locals: push_undefineds (checked) */
+      o += sprintf (o, "  if (d <= 0) return 0;\n  return 1 + rec (d - 1");
       for (int k = 0; k < nargs; k++)
         o += sprintf (o, ", a%d", k);	/* locals: F_LOCAL / F_PUSH, the unchecked pushes */
       o += sprintf (o, ");\n}\nint go () { int x; x = 7; return rec (%d", depth);
@@ -413,7 +419,7 @@ static int c01_cmd (char *line)
         o += sprintf (o, ", x");
       o += sprintf (o, "); }\n");
       mkdir ("c01/gen", 0755);
-      snprintf (path, sizeof path, "c01/gen/stack_%d_%d.c", depth, nargs);
+      snprintf (path, sizeof path, "c01/gen/stack_%d_%d_%d.c", depth, nargs, nlocals);
       FILE *f = fopen (path, "w");
       if (f)
         {
@@ -421,7 +427,7 @@ static int c01_cmd (char *line)
           fclose (f);
         }
       free (src);
-      snprintf (path, sizeof path, "/c01/gen/stack_%d_%d", depth, nargs);
+      snprintf (path, sizeof path, "/c01/gen/stack_%d_%d_%d", depth, nargs, nlocals);
       save_context (&econ);
       if (!setjmp (econ.context))
         {
